@@ -17,6 +17,12 @@ class LTLExplainer(LtlAstVisitor):
                 self.visit(spec, [[[0, 0]], False])
 
 
+    def visit_term_operand(self, element, intervals, flag):
+        # the value of an arithmetic term has no polarity: a temporal operator
+        # inside a term (x * (always y) > 0) is explained both ways
+        self.visit(element, [intervals, flag])
+        self.visit(element, [intervals, not flag])
+
     def visitConstant(self, element, args):
         intervals = args[0]
         self.explanations[element] = intervals
@@ -29,8 +35,8 @@ class LTLExplainer(LtlAstVisitor):
         op1_intervals, op2_intervals = explain_predicate(op1_signal, op2_signal, intervals)
         self.explanations[element.name] = intervals
 
-        self.visit(element.children[0], [op1_intervals, flag])
-        self.visit(element.children[1], [op2_intervals, flag])
+        self.visit_term_operand(element.children[0], op1_intervals, flag)
+        self.visit_term_operand(element.children[1], op2_intervals, flag)
 
     def visitVariable(self, element, args):
         intervals = args[0]
@@ -46,8 +52,8 @@ class LTLExplainer(LtlAstVisitor):
         op1_intervals, op2_intervals = explain_addition(op1_signal, op2_signal, intervals)
         self.explanations[element.name] = intervals
 
-        self.visit(element.children[0], [op1_intervals, flag])
-        self.visit(element.children[1], [op2_intervals, flag])
+        self.visit_term_operand(element.children[0], op1_intervals, flag)
+        self.visit_term_operand(element.children[1], op2_intervals, flag)
 
     def visitMultiplication(self, element, args):
         intervals = args[0]
@@ -57,8 +63,8 @@ class LTLExplainer(LtlAstVisitor):
         op1_intervals, op2_intervals = explain_multiplication(op1_signal, op2_signal, intervals)
         self.explanations[element.name] = intervals
 
-        self.visit(element.children[0], [op1_intervals, flag])
-        self.visit(element.children[1], [op2_intervals, flag])
+        self.visit_term_operand(element.children[0], op1_intervals, flag)
+        self.visit_term_operand(element.children[1], op2_intervals, flag)
 
     def visitSubtraction(self, element, args):
         intervals = args[0]
@@ -68,8 +74,8 @@ class LTLExplainer(LtlAstVisitor):
         op1_intervals, op2_intervals = explain_subtraction(op1_signal, op2_signal, intervals)
         self.explanations[element.name] = intervals
 
-        self.visit(element.children[0], [op1_intervals, flag])
-        self.visit(element.children[1], [op2_intervals, flag])
+        self.visit_term_operand(element.children[0], op1_intervals, flag)
+        self.visit_term_operand(element.children[1], op2_intervals, flag)
 
     def visitDivision(self, element, args):
         intervals = args[0]
@@ -79,8 +85,8 @@ class LTLExplainer(LtlAstVisitor):
         op1_intervals, op2_intervals = explain_division(op1_signal, op2_signal, intervals)
         self.explanations[element.name] = intervals
 
-        self.visit(element.children[0], [op1_intervals, flag])
-        self.visit(element.children[1], [op2_intervals, flag])
+        self.visit_term_operand(element.children[0], op1_intervals, flag)
+        self.visit_term_operand(element.children[1], op2_intervals, flag)
 
     def visitAbs(self, element, args):
         intervals = args[0]
@@ -89,7 +95,36 @@ class LTLExplainer(LtlAstVisitor):
         op_intervals = explain_abs(op_signal, intervals)
         self.explanations[element.name] = intervals
 
-        self.visit(element.children[0], [op_intervals, flag])
+        self.visit_term_operand(element.children[0], op_intervals, flag)
+
+    def visitNegate(self, element, args):
+        intervals = args[0]
+        flag = args[1]
+        op_signal = self.spec.results[element.children[0]]
+        op_intervals = explain_unary(op_signal, intervals)
+        self.explanations[element.name] = intervals
+
+        self.visit_term_operand(element.children[0], op_intervals, flag)
+
+    def visitLn(self, element, args):
+        intervals = args[0]
+        flag = args[1]
+        op_signal = self.spec.results[element.children[0]]
+        op_intervals = explain_unary(op_signal, intervals)
+        self.explanations[element.name] = intervals
+
+        self.visit_term_operand(element.children[0], op_intervals, flag)
+
+    def visitLog(self, element, args):
+        intervals = args[0]
+        flag = args[1]
+        op1_signal = self.spec.results[element.children[0]]
+        op2_signal = self.spec.results[element.children[1]]
+        op1_intervals, op2_intervals = explain_binary(op1_signal, op2_signal, intervals)
+        self.explanations[element.name] = intervals
+
+        self.visit_term_operand(element.children[0], op1_intervals, flag)
+        self.visit_term_operand(element.children[1], op2_intervals, flag)
 
     def visitSqrt(self, element, args):
         intervals = args[0]
@@ -98,7 +133,7 @@ class LTLExplainer(LtlAstVisitor):
         op_intervals = explain_sqrt(op_signal, intervals)
         self.explanations[element.name] = intervals
 
-        self.visit(element.children[0], [op_intervals, flag])
+        self.visit_term_operand(element.children[0], op_intervals, flag)
 
     def visitExp(self, element, args):
         intervals = args[0]
@@ -107,7 +142,7 @@ class LTLExplainer(LtlAstVisitor):
         op_intervals = explain_exp(op_signal, intervals)
         self.explanations[element.name] = intervals
 
-        self.visit(element.children[0], [op_intervals, flag])
+        self.visit_term_operand(element.children[0], op_intervals, flag)
 
     def visitPow(self, element, args):
         intervals = args[0]
@@ -117,8 +152,8 @@ class LTLExplainer(LtlAstVisitor):
         op1_intervals, op2_intervals = explain_pow(op1_signal, op2_signal, intervals)
         self.explanations[element.name] = intervals
 
-        self.visit(element.children[0], [op1_intervals, flag])
-        self.visit(element.children[1], [op2_intervals, flag])
+        self.visit_term_operand(element.children[0], op1_intervals, flag)
+        self.visit_term_operand(element.children[1], op2_intervals, flag)
 
     def visitRise(self, element, args):
         intervals = args[0]
